@@ -71,3 +71,712 @@ class Inliner:
         if isinstance(value, list):
             return [self._sub_field(v, depth, stop) for v in value]
         return value
+
+
+# --------------------------------------------------------------------------- E3b: helper inlining
+"""(E3b) The *effective* body of a function.
+
+``flatten(tree, fn)`` returns a synthetic ``FuncInfo`` (same qualname, a fresh AST; the loaded tree is not
+touched) in which
+
+* H-PROC  a statement ``self.__helper(a, b)`` / ``_helper(a, b)`` whose value is discarded is replaced by the
+  body of the helper - a private method of the same class (never an overridable one) or a private function of
+  the same module.  Parameters that the helper never rebinds and that are bound to a plain name become that
+  name; every other parameter is bound by an assignment ``p = <argument>`` in front of the body.  Locals of the
+  helper that collide with a name of the caller are renamed (``x`` -> ``x_1``).  Guard clauses
+  ``if c: return`` become ``if c: pass / else: <rest>``.  Helpers with a shape that cannot be spliced
+  (``return`` inside a loop, a returned value, try/with, nested functions, generators, ``*args``, decorators
+  other than ``staticmethod``, recursion, depth > 3) stay calls.
+* H-EXPR  a call of such a helper whose body is a single ``return E`` is replaced by ``E`` with the arguments
+  substituted (refused if a name would be captured or shadowed).
+* H-ALIAS a local that is bound exactly once, to an attribute path rooted at ``self``
+  (``defaults = self.__ingredients.parameter_defaults``), is replaced by that path at every use - unless the
+  function assigns to a prefix of the path, or calls a method of an inner prefix (``self.__ingredients.reset()``)
+  after / in a common loop with the binding (the alias could then be stale: it is left alone).
+
+All three are behaviour preserving (attribute reads of the package are side-effect free), so a rule that reads
+the flattened function decides the same program; a helper that was extracted from an anchored function is
+part of it again.  Source positions of the spliced statements are those of the helper.
+"""
+
+
+class _Refuse(Exception):
+    pass
+
+
+_UNSPLICEABLE = (ast.FunctionDef, ast.AsyncFunctionDef, ast.ClassDef, ast.Global, ast.Nonlocal, ast.Yield, ast.YieldFrom,
+                 ast.Await, ast.NamedExpr, ast.Try, ast.With, ast.AsyncWith, ast.AsyncFor, ast.Match)
+
+
+def _clone(node):
+    from .canon import clone
+
+    return clone(node)
+
+
+def _self_chain(e: ast.AST) -> list[str] | None:
+    parts = []
+    while isinstance(e, ast.Attribute):
+        parts.append(e.attr)
+        e = e.value
+    if isinstance(e, ast.Name) and e.id == "self" and parts:
+        return ["self", *reversed(parts)]
+    return None
+
+
+def _stored(nodes) -> set[str]:
+    out: set[str] = set()
+    for root in nodes:
+        for n in ast.walk(root):
+            if isinstance(n, ast.Name) and isinstance(n.ctx, (ast.Store, ast.Del)):
+                out.add(n.id)
+    return out
+
+
+def _loads(nodes) -> set[str]:
+    return {n.id for root in nodes for n in ast.walk(root) if isinstance(n, ast.Name) and isinstance(n.ctx, ast.Load)}
+
+
+class _Rename(ast.NodeTransformer):
+    """Name -> Name (any context) or, for loads, Name -> expression."""
+
+    def __init__(self, names: dict[str, str], exprs: dict[str, ast.AST] | None = None) -> None:
+        self.names = names
+        self.exprs = exprs or {}
+
+    def visit_Name(self, node: ast.Name):
+        if node.id in self.exprs and isinstance(node.ctx, ast.Load):
+            return ast.copy_location(_clone(self.exprs[node.id]), node)
+        if node.id in self.names:
+            return ast.copy_location(ast.Name(id=self.names[node.id], ctx=node.ctx), node)
+        return node
+
+
+def _body_without_docstring(fn: ast.FunctionDef) -> list[ast.stmt]:
+    body = list(fn.body)
+    if body and isinstance(body[0], ast.Expr) and isinstance(body[0].value, ast.Constant) and isinstance(body[0].value.value, str):
+        body = body[1:]
+    return body
+
+
+def _has_return(st: ast.AST) -> bool:
+    return any(isinstance(n, ast.Return) for n in ast.walk(st))
+
+
+_FLIP = {ast.Is: ast.IsNot, ast.IsNot: ast.Is, ast.Eq: ast.NotEq, ast.NotEq: ast.Eq, ast.In: ast.NotIn, ast.NotIn: ast.In}
+
+
+def _negated(test: ast.expr) -> ast.expr:
+    if isinstance(test, ast.UnaryOp) and isinstance(test.op, ast.Not):
+        return test.operand
+    if isinstance(test, ast.Compare) and len(test.ops) == 1 and type(test.ops[0]) in _FLIP:
+        return ast.copy_location(ast.Compare(left=test.left, ops=[_FLIP[type(test.ops[0])]()], comparators=test.comparators), test)
+    return ast.copy_location(ast.UnaryOp(op=ast.Not(), operand=test), test)
+
+
+def _elim_returns(stmts: list[ast.stmt]) -> list[ast.stmt]:
+    """Value-less returns (only below ``if``) -> structured if/else."""
+    out: list[ast.stmt] = []
+    for i, st in enumerate(stmts):
+        if isinstance(st, ast.Return):
+            return out
+        if isinstance(st, ast.If) and _has_return(st):
+            rest = stmts[i + 1:]
+            body = _elim_returns([*st.body, *[_clone(r) for r in rest]])
+            orelse = _elim_returns([*st.orelse, *rest])
+            test = st.test
+            if not body and orelse:  # `if c: return` + rest  ->  `if not c: rest`
+                test, body, orelse = _negated(test), orelse, []
+            if not body:
+                body = [ast.copy_location(ast.Pass(), st)]
+            out.append(ast.copy_location(ast.If(test=test, body=body, orelse=orelse), st))
+            return out
+        out.append(st)
+    return out
+
+
+class Flattener:
+    def __init__(self, tree, max_depth: int = 3) -> None:
+        self.tree = tree
+        self.max_depth = max_depth
+
+    # ------------------------------------------------------------------ public
+    def flatten(self, fn, inline: bool = True, aliases: bool = True):
+        from .loader import FuncInfo, _set_parents
+
+        node = _clone(fn.node)
+        self._mark(node, fn.module)
+        self.used = {n.id for n in ast.walk(node) if isinstance(n, ast.Name)} | {a.arg for a in ast.walk(node) if isinstance(a, ast.arg)}
+        self.locals = _stored([node]) | {a.arg for a in ast.walk(node) if isinstance(a, ast.arg)}
+        self.spliced: list[str] = []
+        if inline:
+            node.body = self._block(node.body, fn, 0, (fn.qual,))
+        if aliases:
+            expand_self_aliases(node)
+        self._mark(node, fn.module)
+        _set_parents(node)
+        node._parent = getattr(fn.node, "_parent", None)  # type: ignore[attr-defined]
+        info = FuncInfo(fn.qual, node, fn.module, fn.cls, fn.outer)
+        info.spliced = list(self.spliced)  # type: ignore[attr-defined]
+        return info
+
+    @staticmethod
+    def _mark(node: ast.AST, module) -> None:
+        for n in ast.walk(node):
+            n._module = module  # type: ignore[attr-defined]
+
+    # --------------------------------------------------------------- statements
+    def _block(self, stmts: list[ast.stmt], scope, depth: int, stack: tuple) -> list[ast.stmt]:
+        out: list[ast.stmt] = []
+        for st in stmts:
+            if not isinstance(st, (ast.FunctionDef, ast.AsyncFunctionDef, ast.ClassDef)):
+                for fld in ("body", "orelse", "finalbody"):
+                    blk = getattr(st, fld, None)
+                    if isinstance(blk, list) and blk and isinstance(blk[0], ast.stmt):
+                        setattr(st, fld, self._block(blk, scope, depth, stack))
+                for h in getattr(st, "handlers", None) or []:
+                    h.body = self._block(h.body, scope, depth, stack)
+                self._exprs(st, scope, depth, stack)
+            if isinstance(st, ast.Expr) and isinstance(st.value, ast.Call):
+                try:
+                    out.extend(self._procedure(st.value, scope, depth, stack))
+                    continue
+                except _Refuse:
+                    pass
+            out.append(st)
+        return out
+
+    def _exprs(self, st: ast.stmt, scope, depth: int, stack: tuple) -> None:
+        me = self
+
+        class T(ast.NodeTransformer):
+            def visit_Lambda(self, node):  # own scope: left alone
+                return node
+
+            def visit_Call(self, node: ast.Call):
+                self.generic_visit(node)
+                try:
+                    return me._expression(node, scope, depth, stack)
+                except _Refuse:
+                    return node
+
+        for fld, value in ast.iter_fields(st):
+            if isinstance(value, ast.expr):
+                setattr(st, fld, T().visit(value))
+            elif isinstance(value, list) and value and all(isinstance(v, ast.expr) for v in value):
+                setattr(st, fld, [T().visit(v) for v in value])
+            elif isinstance(value, list) and value and all(isinstance(v, ast.withitem) for v in value):
+                for item in value:
+                    item.context_expr = T().visit(item.context_expr)
+
+    # ------------------------------------------------------------------ helpers
+    def _helper(self, call: ast.Call, scope, depth: int, stack: tuple):
+        if depth >= self.max_depth:
+            raise _Refuse
+        q = self.tree.callee(call, scope)
+        g = self.tree.funcs.get(q) if q else None
+        if g is None or g.outer is not None or g.qual in stack:
+            raise _Refuse
+        name = g.name
+        if not name.startswith("_") or (name.startswith("__") and name.endswith("__")):
+            raise _Refuse
+        if g.module is not scope.module:
+            raise _Refuse
+        decos = [ast.unparse(d) for d in g.node.decorator_list]
+        a = g.node.args
+        if a.vararg or a.kwarg:
+            raise _Refuse
+        params = [x.arg for x in [*a.posonlyargs, *a.args]]
+        if g.cls is None:
+            if decos or not isinstance(call.func, ast.Name):
+                raise _Refuse
+        else:
+            f = call.func
+            if scope.cls is None or g.cls != scope.cls or not (isinstance(f, ast.Attribute) and isinstance(f.value, ast.Name) and f.value.id == "self"):
+                raise _Refuse
+            if any(d != "staticmethod" for d in decos):
+                raise _Refuse
+            if not name.startswith("__") and any(name in sub.methods for sub in self.tree.subclasses(g.cls)):
+                raise _Refuse  # overridable: the callee is not known statically
+            if "staticmethod" not in decos:
+                if not params or params[0] != "self":
+                    raise _Refuse
+                params = params[1:]
+        return g, params
+
+    def _bind(self, call: ast.Call, g, params: list[str]) -> dict[str, ast.AST]:
+        a = g.node.args
+        kwonly = [x.arg for x in a.kwonlyargs]
+        if any(isinstance(x, ast.Starred) for x in call.args) or any(k.arg is None for k in call.keywords) or len(call.args) > len(params):
+            raise _Refuse
+        bound: dict[str, ast.AST] = dict(zip(params, call.args))
+        for k in call.keywords:
+            if k.arg in bound or k.arg not in [*params, *kwonly]:
+                raise _Refuse
+            bound[k.arg] = k.value
+        positional = [x.arg for x in [*a.posonlyargs, *a.args]]
+        defaults = dict(zip(positional[len(positional) - len(a.defaults):], a.defaults))
+        defaults.update({k: d for k, d in zip(kwonly, a.kw_defaults) if d is not None})
+        for p in [*params, *kwonly]:
+            if p not in bound:
+                d = defaults.get(p)
+                if not isinstance(d, ast.Constant):
+                    raise _Refuse
+                bound[p] = d
+        return {p: bound[p] for p in [*params, *kwonly]}
+
+    def _check_scopes(self, body: list[ast.AST], g, bound: dict[str, ast.AST], own: set[str]) -> None:
+        """No capture / shadowing when ``body`` (of helper ``g``) is moved into the flattened function."""
+        for root in body:
+            for n in ast.walk(root):
+                if isinstance(n, ast.Lambda):
+                    largs = {x.arg for x in ast.walk(n.args) if isinstance(x, ast.arg)}
+                    if largs & (own | set(bound)):
+                        raise _Refuse
+        free = _loads(body) - own - set(bound) - ({"self"} if g.cls is not None else set())
+        if free & self.locals:
+            raise _Refuse  # a global of the helper would be shadowed by a local of the caller
+
+    # --------------------------------------------------------------- H-EXPR
+    def _expression(self, call: ast.Call, scope, depth: int, stack: tuple) -> ast.AST:
+        g, params = self._helper(call, scope, depth, stack)
+        body = _body_without_docstring(g.node)
+        if len(body) != 1 or not isinstance(body[0], ast.Return) or body[0].value is None:
+            raise _Refuse
+        bound = self._bind(call, g, params)
+        e = _clone(body[0].value)
+        self._mark(e, g.module)
+        if any(isinstance(n, (*_UNSPLICEABLE, ast.Lambda)) for n in ast.walk(e)):
+            raise _Refuse
+        own = _stored([e])  # comprehension variables
+        if own & set(bound):
+            raise _Refuse
+        self._check_scopes([e], g, bound, own)
+        if own & _loads(list(bound.values())):
+            raise _Refuse  # an argument would be captured by a comprehension variable
+        for p, arg in bound.items():
+            n_uses = sum(1 for n in ast.walk(e) if isinstance(n, ast.Name) and n.id == p)
+            simple = isinstance(arg, (ast.Name, ast.Constant)) or _self_chain(arg) is not None
+            if n_uses > 1 and not simple:
+                raise _Refuse
+        holder = ast.Expr(value=e)
+        self._exprs(holder, g, depth + 1, (*stack, g.qual))
+        e = _Rename({}, dict(bound)).visit(holder.value)
+        self.spliced.append(g.qual)
+        return e
+
+    # --------------------------------------------------------------- H-PROC
+    def _procedure(self, call: ast.Call, scope, depth: int, stack: tuple) -> list[ast.stmt]:
+        g, params = self._helper(call, scope, depth, stack)
+        bound = self._bind(call, g, params)
+        body = [_clone(s) for s in _body_without_docstring(g.node)]
+        for s in body:
+            self._mark(s, g.module)
+        self._check_returns(body, in_loop=False)
+        if any(isinstance(n, _UNSPLICEABLE) for s in body for n in ast.walk(s)):
+            raise _Refuse
+        own = _stored(body)
+        self._check_scopes(body, g, bound, own)
+        names: dict[str, str] = {}
+        assigns: list[tuple[str, ast.AST]] = []
+        for p, arg in bound.items():
+            if p not in own and isinstance(arg, ast.Name):
+                names[p] = arg.id
+            else:
+                own = own | {p}
+                assigns.append((p, arg))
+        for n in sorted(own):
+            if n in self.used:
+                names[n] = self._fresh(n)
+            self.used.add(names.get(n, n))
+            self.locals.add(names.get(n, n))
+        self.used |= set(bound) | own
+        body = self._block(body, g, depth + 1, (*stack, g.qual))
+        body = _elim_returns(body)
+        ren = _Rename(names)
+        body = [ren.visit(s) for s in body]
+        head = []
+        for p, arg in assigns:
+            tgt = ast.Name(id=names.get(p, p), ctx=ast.Store())
+            head.append(ast.copy_location(ast.Assign(targets=[ast.copy_location(tgt, call)], value=_clone(arg), lineno=call.lineno), call))
+        out = [*head, *body] or [ast.copy_location(ast.Pass(), call)]
+        self.spliced.append(g.qual)
+        return out
+
+    def _fresh(self, name: str) -> str:
+        k = 1
+        while f"{name}_{k}" in self.used:
+            k += 1
+        return f"{name}_{k}"
+
+    def _check_returns(self, stmts: list[ast.stmt], in_loop: bool) -> None:
+        for st in stmts:
+            if isinstance(st, ast.Return):
+                if in_loop or not (st.value is None or (isinstance(st.value, ast.Constant) and st.value.value is None)):
+                    raise _Refuse
+            elif isinstance(st, ast.If):
+                self._check_returns(st.body, in_loop)
+                self._check_returns(st.orelse, in_loop)
+            elif isinstance(st, (ast.For, ast.While)):
+                self._check_returns(st.body, True)
+                self._check_returns(st.orelse, True)
+            elif _has_return(st):
+                raise _Refuse
+
+
+def expand_self_aliases(fn: ast.FunctionDef) -> list[str]:
+    """H-ALIAS on the function node ``fn`` (in place; meant for the clone made by ``Flattener``).
+    Returns the names that were expanded."""
+    done: list[str] = []
+    for _ in range(10):
+        order: dict[int, int] = {}
+        loops: dict[int, tuple] = {}
+
+        def index(stmts, enclosing):
+            for st in stmts:
+                order[id(st)] = len(order)
+                loops[id(st)] = enclosing
+                inner = (*enclosing, id(st)) if isinstance(st, (ast.For, ast.While, ast.AsyncFor)) else enclosing
+                for fld in ("body", "orelse", "finalbody"):
+                    blk = getattr(st, fld, None)
+                    if isinstance(blk, list) and blk and isinstance(blk[0], ast.stmt):
+                        index(blk, inner)
+                for h in getattr(st, "handlers", None) or []:
+                    index(h.body, inner)
+
+        index(fn.body, ())
+        stmt_of: dict[int, ast.stmt] = {}
+        for st in [n for n in ast.walk(fn) if isinstance(n, ast.stmt) and id(n) in order]:
+            for fld, value in ast.iter_fields(st):
+                vals = value if isinstance(value, list) else [value]
+                for v in vals:
+                    if isinstance(v, (ast.expr, ast.withitem, ast.keyword)):
+                        for n in ast.walk(v):
+                            stmt_of[id(n)] = st
+        n_stores: dict[str, int] = {}
+        other: set[str] = set()
+        for n in ast.walk(fn):
+            if isinstance(n, ast.Name) and isinstance(n.ctx, (ast.Store, ast.Del)):
+                n_stores[n.id] = n_stores.get(n.id, 0) + 1
+            elif isinstance(n, ast.arg):
+                other.add(n.arg)
+            elif isinstance(n, (ast.Global, ast.Nonlocal)):
+                other |= set(n.names)
+            elif isinstance(n, ast.ExceptHandler) and n.name:
+                other.add(n.name)
+            elif isinstance(n, (ast.FunctionDef, ast.AsyncFunctionDef, ast.ClassDef)) and n is not fn:
+                other.add(n.name)
+        changed = False
+        for st in sorted([n for n in ast.walk(fn) if isinstance(n, ast.Assign) and id(n) in order], key=lambda s: order[id(s)]):
+            if len(st.targets) != 1 or not isinstance(st.targets[0], ast.Name):
+                continue
+            a = st.targets[0].id
+            chain = _self_chain(st.value)
+            if chain is None or n_stores.get(a) != 1 or a in other or a in done:
+                continue
+            if not any(isinstance(n, ast.Name) and n.id == a and isinstance(n.ctx, ast.Load) for n in ast.walk(fn)):
+                continue
+            if _alias_may_be_stale(fn, st, chain, order, loops, stmt_of):
+                continue
+            _Rename({}, {a: st.value}).visit(fn)
+            done.append(a)
+            changed = True
+            break  # indices are stale: start over
+        if not changed:
+            break
+    return done
+
+
+def _alias_may_be_stale(fn, st, chain, order, loops, stmt_of) -> bool:
+    for n in ast.walk(fn):
+        if isinstance(n, ast.Attribute) and isinstance(n.ctx, (ast.Store, ast.Del)):
+            c = _self_chain(n)
+            if c is not None and c == chain[: len(c)]:
+                return True
+        if isinstance(n, ast.Call) and isinstance(n.func, ast.Attribute):
+            c = _self_chain(n.func.value)
+            if c is not None and 2 <= len(c) < len(chain) and c == chain[: len(c)]:
+                at = stmt_of.get(id(n))
+                if at is None:
+                    return True
+                if order[id(at)] > order[id(st)] or set(loops[id(at)]) & set(loops[id(st)]):
+                    return True
+    return False
+
+
+def flatten(tree, fn, inline: bool = True, aliases: bool = True):
+    """The effective function (see the E3b notes above); cached per tree."""
+    cache = tree.__dict__.setdefault("_flatten_cache", {})
+    key = (fn.qual, inline, aliases)
+    if key not in cache:
+        cache[key] = Flattener(tree).flatten(fn, inline=inline, aliases=aliases)
+    return cache[key]
+
+
+# --------------------------------------------------------------------------- E3c: the value of a helper call
+class CallInliner(Inliner):
+    """``Inliner`` that also replaces a CALL of a function of the analysed tree by the value the call returns.
+
+    ``CallInliner(tree, fn).expr(node)`` substitutes locals like ``Inliner`` and, wherever the (inlined) expression
+    calls a module-level function, a nested closure or a method through ``self`` whose callee is known statically,
+    puts the callee's *value expression* there: the expression of its ``return`` with the callee's own
+    single-definition locals inlined and its parameters replaced by the (inlined) arguments.  Helpers with
+    several returns below ``if`` give a conditional expression ``A if c else B`` (a branch that raises has no
+    value and drops out); a ``return`` inside a loop / try / with, generators, ``*args``, decorators other than
+    staticmethod/override/cache, recursion, overridden methods, non-constant defaults and any local of the
+    callee that cannot be expressed through its parameters (several reaching definitions, mutated containers)
+    are refused - the call then stays a call.  Free variables of a closure stay names of the enclosing function.
+    Comprehension variables of the callee that collide with a name of an argument are renamed.
+
+    The copies keep the ``_module`` / ``_parent`` links of the nodes they were copied from, so
+    ``tree.callee(call)`` still resolves a call inside the result in the scope it was written in.
+    Analysis only: evaluation order and multiplicity of the arguments are not preserved.
+    """
+
+    TRANSPARENT = {"staticmethod", "override", "typing.override", "typing_extensions.override", "functools.lru_cache",
+                   "lru_cache", "functools.cache", "cache"}
+
+    def __init__(self, tree, fn, rd: RD | None = None, max_depth: int = 25, max_call_depth: int = 4, _stack: tuple = (), _shared: dict | None = None) -> None:
+        super().__init__(fn.node, rd, max_depth)
+        self.tree = tree
+        self.fn = fn
+        self.max_call_depth = max_call_depth
+        self._stack = (*_stack, fn.qual)
+        self._shared = _shared if _shared is not None else {"n": 0, "followed": []}
+
+    @property
+    def followed(self) -> list[str]:
+        """Qualnames of the helpers whose value was put in place of a call (in order)."""
+        return self._shared["followed"]
+
+    # ------------------------------------------------------------------ substitution
+    def _sub(self, node: ast.AST, depth: int, stop: set[str]) -> ast.AST:
+        new = super()._sub(node, depth, stop)
+        if isinstance(node, ast.Name) and isinstance(new, ast.Name):
+            if not hasattr(new, "_origin"):  # (a substituted alias already carries the origin of its value)
+                new._origin = node  # type: ignore[attr-defined]
+        elif isinstance(node, ast.Call) and isinstance(new, ast.Call):
+            val = self._call_value(node, new)
+            if val is not None:
+                return val
+        return new
+
+    def _call_value(self, orig: ast.Call, new: ast.Call) -> ast.AST | None:
+        if len(self._stack) > self.max_call_depth or getattr(orig, "_module", None) is None:
+            return None
+        scope = self.tree.func_of(orig) or self.fn
+        q = self.tree.callee(orig, scope)
+        h = self.tree.funcs.get(q) if q else None
+        if h is None or h.qual in self._stack or not isinstance(h.node, ast.FunctionDef):
+            return None
+        decos = {ast.unparse(d.func if isinstance(d, ast.Call) else d) for d in h.node.decorator_list}
+        if not decos <= self.TRANSPARENT:
+            return None
+        bound = self._bind_args(orig, new, h, decos, scope)
+        if bound is None:
+            return None
+        sub = CallInliner(self.tree, h, max_depth=self.max_depth, max_call_depth=self.max_call_depth, _stack=self._stack, _shared=self._shared)
+        got = sub.value_expr()
+        if got is None:
+            return None
+        e, param_nodes = got
+        # comprehension / lambda variables of the callee that would capture a name of an argument
+        arg_names = {n.id for a in bound.values() for n in ast.walk(a) if isinstance(n, ast.Name)}
+        binders = _bound_names(e)
+        clash = binders & arg_names
+        if clash:
+            free_ids = {n.id for n in _free_name_nodes(e)}
+            if clash & free_ids:
+                return None
+            ren = {}
+            for name in sorted(clash):
+                self._shared["n"] += 1
+                ren[name] = f"{name}__{self._shared['n']}"
+            for n in ast.walk(e):
+                if isinstance(n, ast.Name) and n.id in ren:
+                    n.id = ren[n.id]
+                elif isinstance(n, ast.arg) and n.arg in ren:
+                    n.arg = ren[n.arg]
+        if any(p.id not in bound for p in param_nodes):
+            return None
+        ids = {id(p): p for p in param_nodes}
+
+        class _Put(ast.NodeTransformer):
+            def visit_Name(self, n: ast.Name):  # noqa: N802
+                if id(n) in ids:
+                    return _clone_keep(bound[n.id])
+                return n
+
+        holder = ast.Expr(value=e)
+        _Put().visit(holder)
+        self._shared["followed"].append(h.qual)
+        return holder.value
+
+    def _bind_args(self, orig: ast.Call, new: ast.Call, h, decos: set[str], scope) -> dict[str, ast.AST] | None:
+        a = h.node.args
+        if a.vararg or a.kwarg:
+            return None
+        if any(isinstance(x, ast.Starred) for x in new.args) or any(k.arg is None for k in new.keywords):
+            return None
+        pos = [x.arg for x in [*a.posonlyargs, *a.args]]
+        all_pos = list(pos)
+        bound: dict[str, ast.AST] = {}
+        if h.cls is not None and h.outer is None and "staticmethod" not in decos:
+            f = orig.func
+            if not pos or not isinstance(f, ast.Attribute):
+                return None
+            recv = f.value
+            if isinstance(recv, ast.Call) or self.tree.resolve(orig._module, recv, scope) in self.tree.classes:  # super().m() / Class.m(obj)
+                return None
+            if not h.name.startswith("__") and any(h.name in sub.methods for sub in self.tree.subclasses(h.cls)):
+                return None  # overridden somewhere: the callee is not known statically
+            bound[pos[0]] = new.func.value  # type: ignore[union-attr]
+            pos = pos[1:]
+        if len(new.args) > len(pos):
+            return None
+        bound.update(zip(pos, new.args))
+        kwonly = [x.arg for x in a.kwonlyargs]
+        for k in new.keywords:
+            if k.arg in bound or k.arg not in [*pos, *kwonly]:
+                return None
+            bound[k.arg] = k.value
+        defaults = dict(zip(all_pos[len(all_pos) - len(a.defaults):], a.defaults)) if a.defaults else {}
+        defaults.update({k: d for k, d in zip(kwonly, a.kw_defaults) if d is not None})
+        for p in [*pos, *kwonly]:
+            if p not in bound:
+                d = defaults.get(p)
+                if not isinstance(d, ast.Constant):
+                    return None
+                bound[p] = d
+        return bound
+
+    # ------------------------------------------------------------------ value of this function
+    def value_expr(self) -> tuple[ast.AST, list[ast.Name]] | None:
+        """(value expression, the Name nodes in it that stand for parameters) or None if the function's
+        result cannot be written as one expression over its parameters."""
+        from .loader import walk_function
+
+        if any(isinstance(n, (ast.Yield, ast.YieldFrom, ast.Await)) for n in walk_function(self.fn.node, nested=False)):
+            return None
+        body = list(self.fn.node.body)
+        if body and isinstance(body[0], ast.Expr) and isinstance(body[0].value, ast.Constant) and isinstance(body[0].value.value, str):
+            body = body[1:]
+        self._budget = 64
+        e = self._block_value(body)
+        if e is None or e is _RAISES:
+            return None
+        params: list[ast.Name] = []
+        for n in _free_name_nodes(e):
+            origin = getattr(n, "_origin", None)
+            if origin is None:
+                return None
+            defs = self.rd.reaching(origin)
+            if not defs:
+                continue  # global / builtin / variable of an enclosing function
+            if all(d.kind == "param" for d in defs):
+                params.append(n)
+                continue
+            return None  # a local that has no single defining expression
+        return e, params
+
+    def _block_value(self, stmts: list[ast.stmt]):
+        from .loader import walk_function
+
+        self._budget -= 1
+        if self._budget < 0:
+            return None
+        for i, st in enumerate(stmts):
+            if isinstance(st, ast.Return):
+                if st.value is None:
+                    return ast.copy_location(ast.Constant(value=None), st)
+                return self.expr(st.value)
+            if isinstance(st, ast.Raise):
+                return _RAISES
+            if isinstance(st, (ast.FunctionDef, ast.AsyncFunctionDef, ast.ClassDef)):
+                continue
+            exits = [n for n in [st, *walk_function(st, nested=False)] if isinstance(n, (ast.Return, ast.Raise))]
+            if not exits:
+                continue
+            if isinstance(st, ast.If):
+                rest = stmts[i + 1:]
+                a = self._block_value([*st.body, *rest])
+                b = self._block_value([*st.orelse, *rest])
+                if a is None or b is None:
+                    return None
+                if a is _RAISES:
+                    return b
+                if b is _RAISES:
+                    return a
+                new = ast.copy_location(ast.IfExp(test=self.expr(st.test), body=a, orelse=b), st)
+                new._module = getattr(st, "_module", None)  # type: ignore[attr-defined]
+                new._parent = getattr(st, "_parent", None)  # type: ignore[attr-defined]
+                return new
+            if any(isinstance(n, ast.Return) for n in exits):
+                return None  # return inside a loop / try / with
+            # only raises inside (validation loops, try/raise): no value is produced there
+        return ast.Constant(value=None)
+
+
+_RAISES = object()
+
+
+def _clone_keep(node):
+    """Deep copy of an AST fragment; the copies keep the loader's links (by reference)."""
+    if isinstance(node, ast.AST):
+        new = copy.copy(node)
+        for fld, value in ast.iter_fields(node):
+            setattr(new, fld, _clone_keep(value))
+        return new
+    if isinstance(node, list):
+        return [_clone_keep(x) for x in node]
+    return node
+
+
+def _bound_names(e: ast.AST) -> set[str]:
+    """Names bound inside the expression by comprehensions, lambdas and walrus."""
+    out: set[str] = set()
+    for n in ast.walk(e):
+        if isinstance(n, ast.comprehension):
+            out |= {x.id for x in ast.walk(n.target) if isinstance(x, ast.Name)}
+        elif isinstance(n, ast.Lambda):
+            out |= {x.arg for x in ast.walk(n.args) if isinstance(x, ast.arg)}
+        elif isinstance(n, ast.NamedExpr) and isinstance(n.target, ast.Name):
+            out.add(n.target.id)
+    return out
+
+
+def _free_name_nodes(e: ast.AST) -> list[ast.Name]:
+    """Name loads of the expression that are not bound by a comprehension / lambda inside it."""
+    out: list[ast.Name] = []
+
+    def visit(node, bound: frozenset):
+        if isinstance(node, ast.Name):
+            if isinstance(node.ctx, ast.Load) and node.id not in bound:
+                out.append(node)
+            return
+        if isinstance(node, (ast.ListComp, ast.SetComp, ast.GeneratorExp, ast.DictComp)):
+            inner = bound
+            for gen in node.generators:
+                visit(gen.iter, inner)
+                inner = inner | {x.id for x in ast.walk(gen.target) if isinstance(x, ast.Name)}
+                for cond in gen.ifs:
+                    visit(cond, inner)
+            if isinstance(node, ast.DictComp):
+                visit(node.key, inner)
+                visit(node.value, inner)
+            else:
+                visit(node.elt, inner)
+            return
+        if isinstance(node, ast.Lambda):
+            for d in [*node.args.defaults, *[x for x in node.args.kw_defaults if x is not None]]:
+                visit(d, bound)
+            visit(node.body, bound | {x.arg for x in ast.walk(node.args) if isinstance(x, ast.arg)})
+            return
+        if isinstance(node, ast.NamedExpr):
+            visit(node.value, bound)
+            return
+        for child in ast.iter_child_nodes(node):
+            visit(child, bound)
+
+    visit(e, frozenset())
+    return out
